@@ -36,8 +36,12 @@ MANIFEST = dict(
          "real servers received, so 'for every format alike' and 'only where the entry does not define it' are quantified, "
          "not sampled; connection reuse is decided on the server's own ConnState log for N=1..4 instances. Grown beyond the "
          "statement: multi-entry files, connect gun (CONNECT line, tunnel per connection, refused tunnel), shared-client pools "
-         "(connections <= client-number, round-robin), header/date middleware, answlog/httptrace as pure observers.",
-    note="Header values/URIs/bodies are tokens of a fixed alphabet (RFC-valid URIs, printable bodies; byte-level fidelity of "
+         "(connections <= client-number, round-robin), header/date middleware, answlog/httptrace as pure observers, valid RFC 3986 "
+         "request-targets in a spelling of their own (percent-encoded reserved characters, sub-delims, empty segments, leading //, "
+         "bare ?) byte-identical through every format and gun, the http2 gun (HTTP/2.0 iff it meets a target offering h2, nothing "
+         "delivered otherwise; one h2 connection per instance).",
+    note="Header values/URIs/bodies are tokens of a fixed alphabet (RFC-valid URIs - request-targets are built by TLC from classed "
+         "pieces -, printable bodies; byte-level fidelity of "
          "arbitrary bodies is C07's). Extra headers tolerated: exactly Go's transport defaults (User-Agent when absent, "
          "Content-Length/Transfer-Encoding, Accept-Encoding only with compression on). json: Host inside `headers` without "
          "`host` is outside the domain (docs say ignored, code uses it). Trusted: renderer/recorder in harness "
